@@ -16,7 +16,9 @@ def all_macros(p: dict[str, Any]) -> list[tuple]:
     """macros of the file and of everything it imports (transitively), as the specification merges them"""
     out = list(p.get("macros", []))
     files = p.get("files", {})
-    for f in files.values():
+    for rel, f in files.items():
+        if "imported" in p and rel not in p["imported"]:
+            continue  # a file that exists but must not be the one the import resolves to
         out += f.get("macros", [])
     return out
 
@@ -35,7 +37,7 @@ def task(name: str, prog: dict[str, Any]) -> dict[str, Any]:
         with open(main, "w", encoding="utf-8") as fh:
             fh.write(text)
         try:
-            compiled = pC01.compile_text(text, main)
+            compiled = pC01.compile_text(text, main, [os.path.join(d, x) for x in prog.get("lookup", [])])
         except Exception as e:  # noqa
             # C05: every acyclic set of macro definitions compiles regardless of the order they are written in
             return {"status": "violation", "kind": "rejected", "program": prog,
